@@ -1,6 +1,7 @@
 mod cmd_lin;
 mod cmd_backend;
 mod cmd_det;
+mod cmd_robust;
 mod cmd_native;
 mod native;
 mod cmd_heapops;
@@ -120,6 +121,10 @@ fn main() {
         "fun2core" => cmd_fun2core::cmd_fun2core(num(2, 1), num(3, 0) as usize, args.get(5..).unwrap_or(&[]), &mut *out),
         "subst" => cmd_subst::cmd_subst(num(2, 1), num(3, 0) as usize, &mut *out, args.get(5..).unwrap_or(&[])),
         "rt" => cmd_rt::cmd_rt(num(2, 1), num(3, 100) as usize, &mut *out),
+        "robust" => cmd_robust::cmd_robust(num(2, 1), num(3, 0) as usize, &mut *out, args.get(5..).unwrap_or(&[])),
+        "robust-lit" => cmd_robust::cmd_robust_lit(num(2, 1), num(3, 0) as usize, &mut *out),
+        "robust-deep" => { print!("{}", cmd_robust::deep_family(arg(2), num(3, 10) as usize).unwrap_or_default()); return; }
+        "robust-child" => { cmd_robust::cmd_child(arg(2)); return; }
         "fmt" => cmd_fmt::cmd_fmt(num(2, 1), num(3, 0) as usize, args.get(5..).unwrap_or(&[]), &mut *out),
         c => { eprintln!("unknown command {c}"); std::process::exit(2); }
     }
